@@ -194,41 +194,31 @@ func runMergeMono(c *core.Ctx) {
 				if at == nil {
 					return true
 				}
-				// accepted guards: `!ok` (no entry yet), `self < other`, `other > self`, other.After(self)
-				okGuard := false
-				for _, cd := range g.CondAtoms(func(ex ast.Expr) bool { return true }) {
-					ex := an.Unparen(cd.(ast.Expr))
-					greater := func(x ast.Expr) bool {
-						switch b := an.Unparen(x).(type) {
-						case *ast.BinaryExpr:
-							// self < other  or  other > self
-							if b.Op == token.LSS && alias[an.ObjOf(info, b.Y)] && !alias[an.ObjOf(info, b.X)] {
-								return true
-							}
-							if b.Op == token.GTR && alias[an.ObjOf(info, b.X)] && !alias[an.ObjOf(info, b.Y)] {
-								return true
-							}
-						case *ast.CallExpr:
-							if s, ok := an.Unparen(b.Fun).(*ast.SelectorExpr); ok && s.Sel.Name == "After" && alias[an.ObjOf(info, s.X)] {
-								return true
-							}
-						case *ast.UnaryExpr:
-							if b.Op == token.NOT {
-								if _, isID := an.Unparen(b.X).(*ast.Ident); isID {
-									return true // !ok : the key is absent on this side
-								}
+				// the store runs only where the key is absent here (`!ok`) or the peer's entry is strictly greater
+				// (`self < other`, `other > self`, other.After(self), or the negation of their complements)
+				isOther := func(x ast.Expr) bool { return alias[an.ObjOf(info, x)] }
+				okGuard := guardsEntail(g, at, func(leaf ast.Expr) (string, bool, bool) {
+					switch b := an.Unparen(leaf).(type) {
+					case *ast.Ident:
+						if t := info.TypeOf(b); t != nil {
+							if bt, isBasic := t.Underlying().(*types.Basic); isBasic && bt.Info()&types.IsBoolean != 0 {
+								return "absent", false, true // ok: the key is present on this side
 							}
 						}
-						return false
+					case *ast.BinaryExpr:
+						switch {
+						case b.Op == token.LSS && isOther(b.Y) && !isOther(b.X), b.Op == token.GTR && isOther(b.X) && !isOther(b.Y):
+							return "greater", true, true
+						case b.Op == token.GEQ && isOther(b.Y) && !isOther(b.X), b.Op == token.LEQ && isOther(b.X) && !isOther(b.Y):
+							return "greater", false, true
+						}
+					case *ast.CallExpr:
+						if s, ok := an.Unparen(b.Fun).(*ast.SelectorExpr); ok && s.Sel.Name == "After" && isOther(s.X) && len(b.Args) == 1 && !isOther(b.Args[0]) {
+							return "greater", true, true
+						}
 					}
-					matches := greater(ex)
-					if be, ok := ex.(*ast.BinaryExpr); ok && be.Op == token.LOR {
-						matches = greater(be.X) && greater(be.Y)
-					}
-					if matches && g.GuardedBy(at, cd, true) {
-						okGuard = true
-					}
-				}
+					return "", false, false
+				}, func(val map[string]bool) bool { return val["absent"] || val["greater"] })
 				c.Check(okGuard, key, call.Pos(), "the peer's entry is stored only if absent here or strictly greater",
 					"a peer's per-key entry is stored without the comparison that makes it the greater one: merge could lower an entry (not an upper bound) or depend on argument order")
 				return true
